@@ -29,6 +29,7 @@ def plans_for(tier, rng):
     finals += [{"kind": "other_cert", "other": o} for o in ("leaf", "leaf2", "selfsigned")]
     finals += [{"kind": k} for k in ("wrong_key", "wrong_direction", "bad_seq", "bad_sig_version", "reflect", "plain_key", "plain_inc", "empty", "absent", "wrong_field", "ber_long")]
     finals += [{"kind": "bad_checksum", "i": i} for i in range(8)]
+    finals += [{"kind": "plain_prefix", "n": n} for n in (0, 1, 2, 135, 269, 270)] + [{"kind": "plain_suffix", "n": n} for n in (1, 2, 16)]
     finals += [{"kind": "extended", "n": n} for n in (1, 2, 16, 255)]
     plans = []
     k = 0
@@ -135,7 +136,7 @@ def run(tier, seed):
                "samples": [{"final_reply": plans[7]["srv"]["final"], "certificate": plans[7]["srv"]["ident"], "events": [json.loads(x).get("ev") for x in lines[runs[7][0]:runs[7][1]]]}],
                "evaluations": len(plans), "distinct_nontrivial": len({json.dumps([p["srv"]["final"], p["srv"]["ident"], p["cfg"]["admin"], p["cfg"]["blank"], p["cfg"]["hash"]], sort_keys=True) for p in plans}),
                "rule": "catalogue of last-round replies (honest, numerically equal padded, offsets 0/2/3/-1/+-256/65536/255/257, key of each other certificate, wrong session key, wrong direction, reflection, unsealed key, bad checksum x8, bad sequence, "
-                       "bad signature version, empty, absent, wrong field, BER long form, extensions) x 3 certificates x 8 credential modes; EVERY single-bit flip of the honest TSRequest (%d), truncations of the token and of the request at %s offsets; "
+                       "bad signature version, empty, absent, wrong field, BER long form, extensions, correctly sealed prefixes of the value and the value followed by extra bytes) x 3 certificates x 8 credential modes; EVERY single-bit flip of the honest TSRequest (%d), truncations of the token and of the request at %s offsets; "
                        "each over a real TLS + NTLMv2 handshake; distinct = distinct (reply, certificate, mode)" % (310 * 8, "all" if tier == "thorough" else "every third"),
                "replies_after_which_credentials_were_sent": max(0, proved), "binding_selftest_rejected": tested, "checker_cmd": mc.cmd}
         return v.finish("model_checking", cov, [
